@@ -28,6 +28,26 @@ def find_check(pid):
     return 'checks.' + os.path.basename(hits[0])[:-3]
 
 
+def escaped(R, e, where=''):
+    """an exception escaped the workload driver.  Raised by the library itself (innermost frame in the repository under test) during a use the driver
+    makes unguarded because it is valid and succeeds on the unchanged tree: that is an observation - a valid operation was refused - and is reported as a
+    violation with the traceback as witness.  Raised by the harness' own code: not an observation, the run is inconclusive."""
+    import traceback
+    tb = traceback.extract_tb(e.__traceback__)
+    text = where + ''.join(traceback.format_exception(type(e), e, e.__traceback__))[-2500:]
+    inner = tb[-1] if tb else None
+    if inner is not None and os.path.realpath(inner.filename).startswith(mon.REPO + os.sep):
+        fn = f'{os.path.basename(inner.filename)[:-3]}.{inner.name}'
+        R.counters['oracle_evaluations'] += 1
+        R.violation(f'library-raised-on-valid-use-{type(e).__name__}-{fn}', f'{type(e).__name__} raised by {fn} during an operation that is valid and succeeds on the '
+                    f'unchanged tree: {e!r}', {'traceback': text})
+        R.inconc('workload-cut-short-by-library-exception')
+    else:
+        R.inconc(f'harness-exception-{type(e).__name__}')
+        R.extra['harness_traceback'] = [text]
+    sys.stderr.write(text + '\n')
+
+
 def main():
     ap = argparse.ArgumentParser()
     ap.add_argument('pid')
@@ -69,9 +89,7 @@ def main():
         except mon.Watchdog:
             R.inconc('watchdog')
         except Exception as e:
-            import traceback
-            traceback.print_exc()
-            R.inconc(f'harness-exception-{type(e).__name__}')
+            escaped(R, e, f'shard {i}/{n}: ')
         with open(a.out, 'w') as f:
             json.dump(R.dump_state(), f, default=repr)
         sys.exit(0)
@@ -84,10 +102,7 @@ def main():
         except mon.Watchdog:
             R.inconc('watchdog')
         except Exception as e:
-            # an exception escaping the workload driver is not an observation of the property: say so instead of dying with exit 1
-            import traceback
-            traceback.print_exc()
-            R.inconc(f'harness-exception-{type(e).__name__}')
+            escaped(R, e)
         sys.exit(R.finish(level))
 
     # fan out: fresh interpreter per shard, bounded by a generous wall-clock watchdog (inconclusive if it fires)
